@@ -1838,6 +1838,13 @@ const Ref& reference(const std::string& schema, long outv, long argv_v = 0)
     Ref r;
     std::map<std::string, std::string> first;
     const long long saved_now = g.now;
+    // the reference is always taken with the plain spelling of the schema path ("in/<name>")
+    struct SpellingZero
+    {
+        long saved;
+        SpellingZero() : saved(g_input_spelling) { g_input_spelling = 0; }
+        ~SpellingZero() { g_input_spelling = saved; }
+    } spelling_zero;
     for(int round = 0; round < 2; round++)
     {
         fs_reset();
